@@ -451,6 +451,30 @@ static void cmd_chk(decoder_t *d)
 }
 
 /* ------------------------------------------------------------------ poisoning */
+/* closer (C08-em2 class): the model's `restCells` (the HMM state of the lextree, the active lists) rest at their canonical
+ * value BETWEEN utterances — `decoder_end_utt` const-writes them (Model/Api.lean `spec _ .endUtt` / `.endUttEmpty`, constW [.hmm]),
+ * whether or not the utterance produced a frame.  Read-back right after decoder_end_utt. */
+static void cmd_rest(decoder_t *d)
+{
+    fsg_search_t *fs = fsgs_of(d);
+    int i, n, dirty = 0;
+    R("acmod_s.state@end", d->acmod->state == ACMOD_ENDED, d->acmod->state, "ACMOD_ENDED");
+    R("decoder_s.align@end", d->align == NULL, d->align != NULL, "NULL");
+    if (!fs) return;
+    R("fsg_search_s.final@end", fs->final == TRUE, fs->final, "TRUE");
+    R("fsg_search_s.pnode_active@end", fs->pnode_active == NULL, fs->pnode_active != NULL, "NULL");
+    R("fsg_search_s.pnode_active_next@end", fs->pnode_active_next == NULL, fs->pnode_active_next != NULL, "NULL");
+    n = all_pnodes(d, INST, 1);
+    for (i = 0; i < n; i++) {
+        hmm_t *h = (hmm_t *)INST[i];
+        int k, clean = (h->frame == -1);
+        for (k = 0; k < h->n_emit_state; k++) if (h->score[k] != WORST_SCORE || h->history[k] != -1) clean = 0;
+        if (h->out_score != WORST_SCORE || h->out_history != -1 || h->bestscore != WORST_SCORE) clean = 0;
+        if (!clean) dirty++;
+    }
+    R("hmm_s@end", dirty == 0, dirty, "every-HMM-cleared");
+}
+
 static uint64_t PRNG;
 static void garbage(void *p, size_t n)
 {
@@ -738,7 +762,7 @@ int main(void)
             if (!fsg) printf("rv -1\n");
             else {
                 int rv = decoder_set_fsg(DEC[di], fsg);
-                if (rv != 0) fsg_model_free(fsg);
+                /* (the decoder consumes `fsg` also when it refuses it: fsg_search_init's error path frees it) */
                 printf("rv %d\n", rv);
             }
             snap_end(di);
@@ -803,6 +827,8 @@ int main(void)
             printf("X frames=%d senhash=%016llx\n", nf, (unsigned long long)h);
         } else if (!strcmp(w[0], "chk")) {
             cmd_chk(DEC[di]);
+        } else if (!strcmp(w[0], "rest")) {
+            cmd_rest(DEC[di]);
         } else if (!strcmp(w[0], "poison") && n == 4) {
             cmd_poison(DEC[di], strtoull(w[2], NULL, 10), atoi(w[3]));
         } else if (!strcmp(w[0], "result")) {
